@@ -299,13 +299,15 @@ func loadFindings() ([]Finding, error) {
 			}
 		}
 		if f.CasesFile != "" && f.CasesFile != "*" {
-			cb, err := os.ReadFile(filepath.Join(VerifDir, f.CasesFile))
-			if err != nil {
-				return nil, fmt.Errorf("known finding %s: %v", f.ID, err)
-			}
 			f.cases = map[string]bool{}
-			for _, h := range strings.Fields(string(cb)) {
-				f.cases[h] = true
+			for _, cf := range strings.Split(f.CasesFile, ",") {
+				cb, err := os.ReadFile(filepath.Join(VerifDir, cf))
+				if err != nil {
+					return nil, fmt.Errorf("known finding %s: %v", f.ID, err)
+				}
+				for _, h := range strings.Fields(string(cb)) {
+					f.cases[h] = true
+				}
 			}
 		}
 		out = append(out, f)
@@ -419,9 +421,13 @@ func Finish(c *Ctx) int {
 			"the Go toolchain and runtime; reflection-based state dumps read the real object fields",
 		}, c.Assume...),
 		WallS: wall, Violations: newViol}
-	os.MkdirAll(filepath.Join(VerifDir, "evidence"), 0o755)
+	evDir := filepath.Join(VerifDir, "evidence")
+	if d := os.Getenv("VERIF_EVIDENCE_DIR"); d != "" {
+		evDir = d // maintenance runs against deliberately broken trees must not overwrite the evidence
+	}
+	os.MkdirAll(evDir, 0o755)
 	b, _ := json.MarshalIndent(ev, "", " ")
-	if err := os.WriteFile(filepath.Join(VerifDir, "evidence", c.Prop+".json"), b, 0o644); err != nil {
+	if err := os.WriteFile(filepath.Join(evDir, c.Prop+".json"), b, 0o644); err != nil {
 		fmt.Println("ERROR writing evidence:", err)
 		return 2
 	}
